@@ -189,6 +189,33 @@ Theorem quiet_live_neighbour_never_dead : forall P i j s t dead ri,
 Proof. exact quiet_live_neighbour_kept. Qed.
 Print Assumptions quiet_live_neighbour_never_dead.
 
+(* ---- failed fetches ---- *)
+(* a failed advertisement fetch (NACK while the route to the neighbour is not registered yet, cancelled, timed out)
+   changes nothing: the announced sequence number stays recorded — later Sync Interests with the same number are
+   "nothing changed" — and the fetch stays outstanding (advertDataFetch must re-issue it) *)
+Theorem fetch_failure_changes_nothing : forall P i j s, pstep P (PFetchFail i j s) = (P, false).
+Proof. exact fetch_fail_changes_nothing. Qed.
+Print Assumptions fetch_failure_changes_nothing.
+
+Theorem sync_leaves_fetch_outstanding : forall P i j s ri,
+  getr (base P) i = Some ri -> i <> j -> (~ In j (nbrs ri) \/ pget (i, j) (nseq P) < s) ->
+  pget (i, j) (fetching (fst (pstep P (PSync i j s)))) = s.
+Proof. exact sync_starts_fetch. Qed.
+Print Assumptions sync_leaves_fetch_outstanding.
+
+(* fetch_eventually_retried is a premise of dv_protocol_self_stabilises, made explicit: a round of the table-level trace
+   serves every adjacent pair, and the only protocol events that serve (i, j) are advertisement Data of j arriving at i
+   (or the harness-driven Fetch / Deliver); a pair whose failed fetch is never re-issued and answered is never served *)
+Theorem unretried_fetch_is_never_served : forall evs P i j,
+  (forall e, In e evs -> ~ serves i j e) -> existsb (xfers (i, j)) (ptrace_all P evs) = false.
+Proof. exact unretried_fetch_never_served. Qed.
+Print Assumptions unretried_fetch_is_never_served.
+
+Theorem fair_round_needs_fetch_retried : forall g P evs i j,
+  In j (nb g i) -> around g (base P) (ptrace_all P evs) -> exists e, In e evs /\ serves i j e.
+Proof. exact fair_rounds_need_fetch_retry. Qed.
+Print Assumptions fair_round_needs_fetch_retried.
+
 (* ---- the sender side: restarts ---- *)
 (* the unit of the initial sequence number, as measured on a real NewRouter on this run: the clock in milliseconds *)
 Theorem seq_clock_is_milliseconds : seq_clock_div = 1.
